@@ -150,6 +150,29 @@ def run(ck):
                 a.write(again, do_compress=True, laz_backend=bk)
                 if laszip_count_in_file(again.getvalue()) != 1:
                     ck.fail(f"rewriting the read data gives {laszip_count_in_file(again.getvalue())} LasZip records", inp)
+                # ... and written again uncompressed (explicitly, by default for a stream without backend, through a
+                # chunked copy that reuses the compressed file's header): no compressed bit, no LasZip record, same content
+                for how in ("do_compress=False", "default", "open_with_header"):
+                    plain2 = io.BytesIO()
+                    if how == "do_compress=False":
+                        a.write(plain2, do_compress=False)
+                    elif how == "default":
+                        a.write(plain2)
+                    else:
+                        with laspy.open(io.BytesIO(cdata), laz_backend=rb) as rd0:
+                            with laspy.open(plain2, mode="w", header=rd0.header, closefd=False) as w0:
+                                for chunk in rd0.chunk_iterator(4):
+                                    w0.write_points(chunk)
+                                if minor >= 4 and a.evlrs:
+                                    w0.write_evlrs(a.evlrs)
+                    pd2 = plain2.getvalue()
+                    if pd2[104] & 0x80 or laszip_count_in_file(pd2) != 0:
+                        ck.fail(f"data read from a compressed file and written uncompressed ({how}): compressed bit {pd2[104] >> 7}, "
+                                f"{laszip_count_in_file(pd2)} LasZip record(s)", dict(inp, rewrite=how))
+                        continue
+                    b3 = laspy.read(io.BytesIO(pd2))
+                    if canon_no_layout(b3) != canon_no_layout(b):
+                        ck.fail(f"data read from a compressed file and written uncompressed ({how}) reads differently from the original", dict(inp, rewrite=how))
                 lines.append(f"cz vlrs 1 1 {'0' * len(las.vlrs) or '-'}")
                 meta.append((inp, "u" * len(las.vlrs) + "Z" + " " + "u" * len(a.vlrs)))
                 # ---- seek-and-read histories on the compressed file
